@@ -426,14 +426,20 @@ class Gen:
         if op in ('fadd', 'fsub', 'fmul', 'fdiv', 'frem'):
             while p.peek()[1] in FMF: p.next()
             t = p.type(); a = s.val(t, p.value(t)); p.expect(','); b = s.val(t, p.value(t))
-            fw = 32 if s.res(t).k == 'float' else 64
+            rr = s.res(t)
+            if rr.k == 'vector':
+                ew = 32 if s.res(rr.e).k == 'float' else 64
+                return ['%s = rt.vec_fbin(%r, %s, %s, %d)' % (D, op, a, b, ew)]
+            fw = 32 if rr.k == 'float' else 64
             if op in ('fdiv', 'frem'): return ['%s = rt.%s(%s, %s, %d)' % (D, op, a, b, fw)]
             o = {'fadd': '+', 'fsub': '-', 'fmul': '*'}[op]
             if fw == 32: return ['%s = rt.r32(%s %s %s)' % (D, a, o, b)]
             return ['%s = %s %s %s' % (D, a, o, b)]
         if op == 'fneg':
             while p.peek()[1] in FMF: p.next()
-            t = p.type(); a = s.val(t, p.value(t)); return ['%s = -%s' % (D, a)]
+            t = p.type(); a = s.val(t, p.value(t))
+            if s.res(t).k == 'vector': return ['%s = [-x_ for x_ in %s]' % (D, a)]
+            return ['%s = -%s' % (D, a)]
         if op == 'icmp':
             pred = p.next()[1]; t = p.type(); a = s.val(t, p.value(t)); p.expect(','); b = s.val(t, p.value(t))
             r = s.res(t)
